@@ -15,7 +15,7 @@ import (
 var ghostBuiltins = map[string]bool{
 	"requires": true, "ensures": true, "ensuresGoal": true, "assert": true, "assume": true, "imp": true, "iff": true, "old": true,
 	"forall": true, "exists": true, "forallIn": true, "existsIn": true, "forallStr": true, "modifiesTail": true, "modifiesElems": true, "modifiesPtr": true, "modifiesAll": true, "modifiesMap": true,
-	"freshSlice": true, "sameBase": true, "sameArray": true, "suffixOf": true, "viewOf": true, "offsetIn": true, "disjointFromTail": true, "bytesEq": true, "strBytesEq": true, "allocated": true, "unchangedElems": true,
+	"freshSlice": true, "sameBase": true, "sameArray": true, "suffixOf": true, "viewOf": true, "offsetIn": true, "disjointFromTail": true, "bytesEq": true, "strBytesEq": true, "allocated": true, "sameOrDisjoint": true, "unchangedElems": true,
 	"covers": true,
 }
 
@@ -332,6 +332,22 @@ func (c *VC) convert(st *State, arg ast.Expr, to types.Type, call *ast.CallExpr)
 	}
 	_ = it
 	fs, ts := c.sortOf(from), c.sortOf(to)
+	if c.mode == ModeBV {
+		// addresses are mathematical integers, uintptr is a 64-bit vector: bridge with a pair of
+		// mutually inverse uninterpreted functions (see bridgeAxioms)
+		if isPointerLike(from) && fs == sortInt {
+			if w, _, ok := intInfo(to); ok && w == 64 {
+				c.bridgeAxioms()
+				return mk("ptr2bv", bvSort(64), v)
+			}
+		}
+		if isPointerLike(to) && ts == sortInt {
+			if w, _, ok := intInfo(from); ok && w == 64 {
+				c.bridgeAxioms()
+				return mk("bv2ptr", sortInt, v)
+			}
+		}
+	}
 	if fs == ts {
 		if _, toIface := tu.(*types.Interface); toIface {
 			return c.boxIface(v, from)
@@ -345,6 +361,25 @@ func (c *VC) convert(st *State, arg ast.Expr, to types.Type, call *ast.CallExpr)
 	r := c.fresh("conv", ts)
 	c.addFact(tTrue, c.wfAt(st, r, to))
 	return r
+}
+
+// bridgeAxioms declares ptr2bv / bv2ptr and states that they are mutually inverse on the
+// 64-bit address range.
+func (c *VC) bridgeAxioms() {
+	if c.specAxioms["bridge"] {
+		return
+	}
+	c.specAxioms["bridge"] = true
+	c.declareFun("ptr2bv", []*Sort{sortInt}, bvSort(64))
+	c.declareFun("bv2ptr", []*Sort{bvSort(64)}, sortInt)
+	u := c.boundVar("u", bvSort(64))
+	a := c.boundVar("a", sortInt)
+	c.axioms = append(c.axioms,
+		mkForall([]*Term{u}, mkAnd(mkEq(mk("ptr2bv", bvSort(64), mk("bv2ptr", sortInt, u)), u),
+			mk("<=", sortBool, intLit64(0), mk("bv2ptr", sortInt, u)), mk("<", sortBool, mk("bv2ptr", sortInt, u), intLit(pow2(64)))), mk("bv2ptr", sortInt, u)),
+		mkForall([]*Term{a}, mkImplies(mkAnd(mk("<=", sortBool, intLit64(0), a), mk("<", sortBool, a, intLit(pow2(64)))),
+			mkEq(mk("bv2ptr", sortInt, mk("ptr2bv", bvSort(64), a)), a)), mk("ptr2bv", bvSort(64), a)))
+	c.assumptions["addresses fit in 64 bits; uintptr <-> pointer conversion is a bijection on that range"] = true
 }
 
 // ---------------------------------------------------------------- builtins
@@ -563,6 +598,11 @@ func (c *VC) builtinCopy(st *State, call *ast.CallExpr) *Term {
 func (c *VC) intrinsic(st *State, fn *types.Func, call *ast.CallExpr) ([]*Term, bool) {
 	name := fullName(fn)
 	it := types.Typ[types.Int]
+	if strings.HasPrefix(name, "sync/atomic.") {
+		if r, ok := c.atomicIntrinsic(st, fn, call); ok {
+			return r, true
+		}
+	}
 	switch name {
 	case "math.Float32bits", "math.Float64bits", "math.Float32frombits", "math.Float64frombits":
 		return []*Term{c.eval(st, call.Args[0])}, true
@@ -611,6 +651,62 @@ func (c *VC) intrinsic(st *State, fn *types.Func, call *ast.CallExpr) ([]*Term, 
 			r = mkIte(bit, c.idxLit(int64(i)), r)
 		}
 		return []*Term{c.name("ctz", r)}, true
+	}
+	return nil, false
+}
+
+// atomicIntrinsic models sync/atomic package functions under sequential semantics:
+// loads, stores, compare-and-swap, add and swap are plain memory accesses.
+func (c *VC) atomicIntrinsic(st *State, fn *types.Func, call *ast.CallExpr) ([]*Term, bool) {
+	sig := fn.Type().(*types.Signature)
+	if sig.Recv() != nil || sig.Params().Len() == 0 {
+		return nil, false
+	}
+	pt, ok := sig.Params().At(0).Type().Underlying().(*types.Pointer)
+	if !ok {
+		return nil, false
+	}
+	et := pt.Elem()
+	n := fn.Name()
+	text := exprText(c.prog.fset, call)
+	c.assumptions["sync/atomic operations are modelled as plain sequential memory accesses"] = true
+	addr := c.eval(st, call.Args[0])
+	c.nilCheck(st, addr, call.Pos(), text)
+	arg := func(i int) *Term {
+		return c.coerce(st, c.eval(st, call.Args[i]), c.typeOf(call.Args[i]), et)
+	}
+	switch {
+	case strings.HasPrefix(n, "Load"):
+		return []*Term{c.loadPlace(st, addr, et)}, true
+	case strings.HasPrefix(n, "Store"):
+		c.storeAt(st, addr, et, arg(1), call.Pos(), text)
+		return nil, true
+	case strings.HasPrefix(n, "CompareAndSwap"):
+		old, nw := arg(1), arg(2)
+		cur := c.loadPlace(st, addr, et)
+		okc := c.name("cas", c.equal(st, cur, old, et))
+		sub := st.clone()
+		sub.pc = mkAnd(st.pc, okc)
+		c.storeAt(sub, addr, et, nw, call.Pos(), text)
+		other := st.clone()
+		other.pc = mkAnd(st.pc, mkNot(okc))
+		env := st.env
+		st.set(c.merge(sub, other))
+		for k, v := range env {
+			if _, has := st.env[k]; !has {
+				st.env[k] = v
+			}
+		}
+		return []*Term{okc}, true
+	case strings.HasPrefix(n, "Add"):
+		cur := c.loadPlace(st, addr, et)
+		nv := c.binop(token.ADD, cur, arg(1), et)
+		c.storeAt(st, addr, et, nv, call.Pos(), text)
+		return []*Term{nv}, true
+	case strings.HasPrefix(n, "Swap"):
+		cur := c.loadPlace(st, addr, et)
+		c.storeAt(st, addr, et, arg(1), call.Pos(), text)
+		return []*Term{cur}, true
 	}
 	return nil, false
 }
